@@ -6,8 +6,9 @@ CONSTS = ["B64_CHARS", "B64"]
 THEOREMS = {"SmVerif.Props.C11": [
     "SmVerif.C11.c11_roundtrip", "SmVerif.C11.c11_canonical", "SmVerif.C11.c11_u32_diffs",
     "SmVerif.C11.c11_agrees_standard", "SmVerif.C11.c11_err_unterminated", "SmVerif.C11.c11_err_empty",
-    "SmVerif.C11.c11_err_too_long", "SmVerif.C11.c11_table_chars", "SmVerif.C11.c11_table_foreign",
-]}
+    "SmVerif.C11.c11_err_too_long", "SmVerif.C11.c11_table_chars", "SmVerif.C11.c11_table_foreign"],
+    # the error theorems conclude "some error": together with these it is never a (modelled) panic
+    "SmVerif.Props.C05": ["SmVerif.C05.c05_parseVlq_safe", "SmVerif.C05.c05_parse_nonempty"]}
 TRUSTED = BASE_TRUST + ["model: lean/SmVerif/Model/Vlq.lean mirrors parse_vlq_segment_into / encode_vlq (vlq.rs) with i64 truncation at the 13th digit"]
 ASSUMPTIONS = ["i64 arithmetic of rustc/LLVM as documented (wrapping shl, arithmetic shr)", "encode_vlq is only defined for |n| < 2^62 (it loops forever beyond; outside the property)"]
 RULE = ("vlq.dec: every base64 string of length <= 3 (quick) / <= 4 (thorough), all 256 single bytes, random longer strings incl. 13/14-digit runs and foreign bytes; "
